@@ -7,6 +7,7 @@ mod c09;
 mod c10;
 mod c12;
 mod c14;
+mod c22;
 mod driver;
 mod node;
 mod sim;
@@ -84,6 +85,15 @@ impl Engine for ClusterSimEngine {
             stub_components: &["the coordinator (simulator) and the network: catch-up requests go to the transport seam", "ClusterActor's sender/staleness checks in front of the replicator are not run here", "failsafe breaker inside the replicator reads the real monotonic clock"],
             assumptions: &["the first write applied at a sequence defines that sequence (a conflicting write that arrives first is a legitimate transaction)"],
         }, PropertyInfo {
+            id: "C22",
+            level: "exploration",
+            rule: "per run one real ClusterActor (N = 1, rf = 1; 1..32 partitions) and the real RESP server serving one client connection over an in-memory duplex pipe; the simulator is the client and sends a PRNG history of 8-78 commands from the documented grammar as RESP3 arrays, delivered in PRNG chunks (partial frames): EAPPEND and EMAPPEND (1-4 events over 1-4 streams, new and existing streams, multi-stream transactions, every EXPECTED_VERSION form right and wrong, explicit and default partition keys, explicit event ids, boundary timestamps 0 / now / u64::MAX/10^6 and beyond, strict-versioning on or off), EGET of known and unknown ids, ESCAN and EPSCAN with PRNG start/end/count (- and +, count 0..100, by partition id or key), ESVER, EPSEQ, PING, and 12 kinds of invalid request. A reference event-store model decides accept/reject and every reply field: sequences and per-event stream versions reported by appends, event contents and timestamps, scan contents, has_more never false while events of the requested range were left out, versions and sequences; invalid requests must answer an error and the connection must stay usable (a closed connection is a violation). Non-trivial = at least three events stored.",
+            quick_runs: 1200,
+            thorough_runs: 40000,
+            real_components: &["sierradb_server::server (Conn::run request loop, frame decoding, reply encoding) and every request handler (request/*.rs, parser.rs)", "sierradb_cluster::ClusterActor write and read paths (single node)", "sierradb::Database"],
+            stub_components: &["the TCP socket (in-memory duplex pipe, hook S1)", "subscription commands (ESUB/EPSUB/EACK) are not driven here; subscriptions are checked below the RESP layer in C09"],
+            assumptions: &["single node with rf = 1: every accepted append is confirmed at once, so the model is the plain event-store model"],
+        }, PropertyInfo {
             id: "C14",
             level: "exploration",
             rule: "per run a configuration (N in 1..12 or {255,256,257,300,512,1000}, buckets, partitions, rf 1..12) and 1-5 live nodes with boundary-biased configured indices, each a real topology Behaviour around a real TopologyManager; a PRNG sequence of connection up/down (real FromSwarm events), silent partitions, node restarts with a new alive_since, and time advances that fire the real heartbeat and timeout intervals; every published message is broadcast over the simulated bus with per-recipient delay, loss and reordering. After every delivery/tick: each node's replica set of every partition is exactly the owners among the nodes it knows live (itself included), no duplicates, at most min(rf,N); any two nodes with identical membership knowledge hold identical replica sets and identical get_available_replicas order. After faults stop and all nodes are connected: membership converges within two heartbeat rounds and all nodes agree. Static part (1 in 3 runs and all large N): over all N configured nodes every partition has exactly min(rf,N) owners and, with all members known, its replica set is exactly those owners. Non-trivial = at least 3 live nodes and at least two ownership messages delivered.",
@@ -103,6 +113,7 @@ impl Engine for ClusterSimEngine {
             "C10" | "C11" => c10::plan(tier, run_seed),
             "C12" => c12::plan(tier, run_seed),
             "C14" => c14::plan(tier, run_seed),
+            "C22" => c22::plan(tier, run_seed),
             _ => unreachable!(),
         }
     }
@@ -115,6 +126,7 @@ impl Engine for ClusterSimEngine {
             "C10" | "C11" => c10::execute(prop, plan),
             "C12" => c12::execute(plan),
             "C14" => c14::execute(plan),
+            "C22" => c22::execute(plan),
             _ => unreachable!(),
         }
     }
